@@ -138,3 +138,7 @@ func vh_C01_two_routes_slashes_Q() { vhC01(1, 2, 1, -1, 2) }
 func vh_C01_norm_T()               { vhC01(1, 1, 2, 2, 5) }
 func vh_C01_two_ctrl_T()           { vhC01(2, 1, -1, 1, 3) }
 func vh_C01_two_routes_slashes_T() { vhC01(1, 2, 1, 1, 2) }
+
+// C11: the two documents show the same paths for the same routes, whatever the slash structure of prefix and route
+// (the C01 reference is applied to both documents; one verb is enough here)
+func vh_C11_paths_Q() { vhC01(1, 1, 1, 2, 1) }
